@@ -471,11 +471,17 @@ func callSSA(i *interpreter, caller *frame, callpos token.Pos, fn *ssa.Function,
 			return ce(fr, args, env)
 		}
 	}
+	if fn.Pkg != nil {
+		buildPkg(fn.Pkg)
+	} else if o := fn.Origin(); o != nil && o.Pkg != nil {
+		buildPkg(o.Pkg)
+	}
 	if fn.Blocks == nil {
-		if fn.Pkg != nil {
-			buildPkg(fn.Pkg)
-		} else if o := fn.Origin(); o != nil && o.Pkg != nil {
-			buildPkg(o.Pkg)
+		if fn.Blocks == nil && fn.Pkg != nil && fn.Pkg.Pkg.Path() == "math/big" {
+			// assembly kernels of math/big: run the package's own portable Go versions
+			if g := fn.Pkg.Func(fn.Name() + "_g"); g != nil {
+				return callSSA(i, caller, callpos, g, args, env)
+			}
 		}
 		if fn.Blocks == nil {
 			panic(unsupported("no code for function: " + fn.String()))
@@ -652,7 +658,7 @@ func (i *interpreter) ensureInit(pkg *ssa.Package) {
 }
 
 func initAllowed(path string) bool {
-	for _, p := range []string{"0chain.net/", "github.com/0chain/common/", "github.com/0chain/errors", "github.com/pkg/errors", "github.com/koding/cache"} {
+	for _, p := range []string{"0chain.net/", "github.com/0chain/common/", "github.com/0chain/errors", "github.com/pkg/errors", "github.com/koding/cache", "github.com/shopspring/decimal", "math/big"} {
 		if strings.HasPrefix(path, p) {
 			return true
 		}
